@@ -33,21 +33,49 @@ SCOPES = {
 
 
 def fn_key(path):
-    return re.sub(r"\{closure#\d+\}", "{closure}", path)
+    """beliefs of a closure are counted with the function it is written in (a loop body moved into or out of a closure keeps its place)"""
+    return re.sub(r"(::\{closure#\d+\})+$", "", path)
 
 
-def _items(e):
-    """the element an iterator yields, however the iteration is spelled (`for`, `while let`, `iter()`, `into_iter()`): one token"""
-    if not isinstance(e, tuple) or not e or not isinstance(e[0], str):
-        return e
-    if e[0] == "call" and re.search(r"Iterator>?::next$", e[1]):
-        return ("const", None, "next-item", "")
-    return tuple(_items(y) if isinstance(y, tuple) and y and isinstance(y[0], str) else
-                 (tuple(_items(z) if isinstance(z, tuple) else z for z in y) if isinstance(y, tuple) else y) for y in e)
+def _items(e, closure=False):
+    """what an iteration visits, however it is spelled (`for x in a.iter()`, `while let`, `for i in 0..a.len()` with `a[i]`,
+    `iter().enumerate()`): the maximal place expression (fields, derefs, indexing, variant payloads) that contains an iterator's `next()`
+    becomes the one token `elem`"""
+    PROJ = ("field", "deref", "index", "downcast", "ref")
+
+    def rec(x):
+        if not isinstance(x, tuple) or not x or not isinstance(x[0], str):
+            return x, False
+        if x[0] == "call" and re.search(r"(Iterator>?|Range<A>>|Iterator for [^:]*>)::next$", x[1]):
+            return ("const", None, "elem", ""), True
+        if closure and x[0] == "param" and x[1] >= 2:
+            return ("const", None, "elem", ""), True
+        out, hit = [], False
+        for y in x:
+            if isinstance(y, tuple) and y and isinstance(y[0], str):
+                r, h = rec(y)
+                out.append(r)
+                hit = hit or h
+            elif isinstance(y, tuple):
+                ys = []
+                for z in y:
+                    if isinstance(z, tuple):
+                        r, h = rec(z)
+                        ys.append(r)
+                        hit = hit or h
+                    else:
+                        ys.append(z)
+                out.append(tuple(ys))
+            else:
+                out.append(y)
+        if hit and x[0] in PROJ:
+            return ("const", None, "elem", ""), True
+        return tuple(out), False if x[0] not in PROJ else hit
+    return rec(e)[0]
 
 
-def pred_key(prog, e, truth):
-    t = validate.closure_canon(prog, _items(e))
+def pred_key(prog, e, truth, closure=False):
+    t = validate.closure_canon(prog, _items(e, closure))
     t = re.sub(r"local:\w+", "local", t)
     return ("" if truth else "!") + t
 
@@ -57,7 +85,7 @@ def sites(prog, f):
     out = []
     for kind, e, truth, sp in validate.guards_of(f, sy):
         if kind == "belief":
-            out.append((pred_key(prog, e, truth), e, truth, sp))
+            out.append((pred_key(prog, e, truth, "{closure" in f.path), e, truth, sp))
     return sy, out
 
 
